@@ -83,6 +83,80 @@ for x in xs { println(x! .. "") }
 }
 
 
+# the reading side of one channel passes from one handle to another (every capture and every
+# channel sent in a message is a new handle on the same queue): what each handle receives must not
+# depend on the budget
+HANDOVER_KERNELS = {
+    "reader-handed-to-later-task": """let records: channel<int> = channel()
+let report: channel<int> = channel()
+task {
+  var i = 0
+  while i < 400 {
+    records.write(i)
+    i = i + 1
+  }
+}
+for k in 5 {
+  println("header " .. records.read())
+}
+task {
+  var sum = 0
+  for k in 10 {
+    sum = sum + records.read()
+  }
+  report.write(sum)
+}
+println("sum of the next ten: " .. report.read())
+""",
+    "reader-alternates-between-two-handles": """let data: channel<int> = channel()
+let turn_a: channel<int> = channel()
+let turn_b: channel<int> = channel()
+let out: channel<string> = channel()
+task {
+  for i in 60 { data.write(i * 3) }
+}
+task {
+  for r in 6 {
+    let go = turn_a.read()
+    var s = "a" .. r
+    for k in 3 { s = s .. ":" .. data.read() }
+    out.write(s)
+    turn_b.write(1)
+  }
+}
+task {
+  for r in 6 {
+    let go = turn_b.read()
+    var s = "b" .. r
+    for k in 2 { s = s .. ":" .. data.read() }
+    out.write(s)
+    turn_a.write(1)
+  }
+}
+turn_a.write(1)
+for r in 12 { println(out.read()) }
+""",
+    "channel-received-through-a-channel-then-read-by-both": """let data: channel<int> = channel()
+let pass: channel<channel<int>> = channel()
+let report: channel<int> = channel()
+task {
+  for i in 80 { data.write(i + 100) }
+}
+println(data.read())
+println(data.read())
+pass.write(data)
+task {
+  let mine = pass.read()
+  var sum = 0
+  for k in 7 { sum = sum + mine.read() }
+  report.write(sum)
+}
+println("task read " .. report.read())
+println(data.read())
+""",
+}
+
+
 def judge(res, name, taskfree):
     out = []
     cr = vlib.crash_of(res)
@@ -120,6 +194,10 @@ def run(ctx):
         jid = "k-" + name
         jobs.append({"id": jid, "files": {"main.abra": src}, "run_gen": fam(ctx.seed, ctx.quick)})
         meta[jid] = ("kernel:" + name, src, True)
+    for name, src in HANDOVER_KERNELS.items():
+        jid = "h-" + name
+        jobs.append({"id": jid, "files": {"main.abra": src}, "run_gen": fam(ctx.seed, ctx.quick, max_steps=1500000, net=True)})
+        meta[jid] = ("kernel:" + name, src, False)
     n = 2400 if ctx.quick else 30000
     cfgs = [{"size": 45, "hosts": True}, {"size": 60, "depth": 5, "hosts": True}]
     items = []
